@@ -347,7 +347,7 @@ theorem nframe (R Pd : Nat) : Frame P (fun _ => True) (NRoot R Pd) (NR R Pd) whe
     · subst h'; exact NR_empty _ _ _
   atRound := fun pl root root' r q f a _ h0 hf h => nroot_atRound (Nat.le_refl _) h0 hf h
   rupd := fun pl r rr q _ h => nr_rupd q h
-  atPeriod := fun pl r rr rr' q s f a _ h0 hf h => nr_atPeriod h0 hf h
+  atPeriod := fun pl r rr rr' q s f a _ h0 hf h => nr_atPeriod h0 (fun pr pr' a h' => (hf pr pr' a h').1) h
   pvote := fun pl r rr rr' v res _ h0 h => nr_pvote h0 h
   payP := fun pl r rr up _ h0 => nr_payP pl rr up h0
   payV := fun pl r rr rr' pp res _ h0 h => nr_payV h0 h
@@ -634,7 +634,7 @@ theorem dframe (R p v : Nat) (hv : v ≠ 0) :
   atRound := fun pl root root' r q f a hok h0 hf h =>
     droot_atRound hok h0 (fun e rr rr' a hd hfa => hf rr rr' a (fun _ => hd) hfa e) h
   rupd := fun pl r rr q hok h e => dr_rupd q hok.keepP (h e)
-  atPeriod := fun pl r rr rr' q s f a hok h0 hf h e => dr_atPeriod hok.keepP (h0 e) hf h
+  atPeriod := fun pl r rr rr' q s f a hok h0 hf h e => dr_atPeriod hok.keepP (h0 e) (fun pr pr' a h' => (hf pr pr' a h').1) h
   pvote := fun pl r rr rr' x res hok h0 h e => dr_pvote hv hok.keepP (h0 e) h
   payP := fun pl r rr up hok h0 e => dr_payP pl rr up (h0 e)
   payV := fun pl r rr rr' pp res hok h0 h e => dr_payV hok.keepP (h0 e) h
